@@ -1,4 +1,4 @@
 SPECIFICATION TraceSpec
-CONSTANTS Kinds = {"sticky"} MaxN = 4 Limit = 40 Sizes = {2} TraceFile = "part_trace.ndjson"
+CONSTANTS Kinds = {"sticky"} MaxN = 12 Limit = 40 Sizes = {2} TraceFile = "part_trace.ndjson"
 INVARIANTS InRange Accepted Stuck
 CHECK_DEADLOCK FALSE
